@@ -388,7 +388,7 @@ def dedupVals : List Value → List Value
 def aggVal (g : List Tuple) : Agg × Nat → Value
   | (.count, _) => .i64 g.length
   | (.countDistinct, c) => .i64 (dedupVals (g.filterMap (fun t => t[c]?))).length
-  | (.sum, c) => .i64 (g.foldl (fun acc t => satI64 (acc + (match t[c]? with | some v => toI64 v | none => 0))) 0)
+  | (.sum, c) => .i64 (satI64 (g.foldl (fun acc t => acc + (match t[c]? with | some v => toI64 v | none => 0)) 0))   -- i128 accumulation, clamped once
   | (.min, c) => (valMin (g.filterMap (fun t => t[c]?))).getD .null
   | (.max, c) => (valMax (g.filterMap (fun t => t[c]?))).getD .null
   | (.avg, c) =>
